@@ -237,6 +237,7 @@ class World:
         self.root = root
         self.lines = []  # model setup
         self.fifos = {}  # path -> bytes
+        self.stdin = None  # bytes delivered on standard input (a pipe) when argv names "-"
         self.n = 0
 
     def _p(self, name):
@@ -297,6 +298,11 @@ class World:
         self.lines.append(f"fs {tok(str(p))} dir")
         return str(p)
 
+    def stdin_log(self, log, pfx):
+        self.stdin = log.raw[pfx]
+        self.lines.append(f"stdin log {pfx}")
+        return "-"
+
     def fifo(self, name, data: bytes):
         p = self._p(name)
         os.mkfifo(p)
@@ -318,18 +324,40 @@ def _split_nl(b: bytes):
 
 
 class FifoFeeder:
-    """feeds every fifo named in argv once, from a thread, while `hr` runs"""
+    """feeds every fifo named in argv once, from a thread, while `hr` runs; when argv names `-`, standard input of this
+    process is a pipe delivering the world's stdin bytes for the time of the call"""
 
     def __init__(self, world, argv):
         self.jobs = [(a, world.fifos[a]) for a in argv if a in world.fifos]
         self.threads = []
+        self.stdin = world.stdin if "-" in argv or "./-" in argv else None
+        self.saved0 = None
 
     def __enter__(self):
         for path, data in self.jobs:
             t = threading.Thread(target=self._feed, args=(path, data), daemon=True)
             t.start()
             self.threads.append((t, path))
+        if self.stdin is not None:
+            r, w = os.pipe()
+            try:
+                self.saved0 = os.dup(0)
+            except OSError:
+                self.saved0 = -1
+            os.dup2(r, 0)
+            os.close(r)
+            t = threading.Thread(target=self._feed_fd, args=(w, self.stdin), daemon=True)
+            t.start()
+            self.stdin_thread = t
         return self
+
+    @staticmethod
+    def _feed_fd(w, data):
+        try:
+            with os.fdopen(w, "wb") as f:
+                f.write(data)
+        except OSError:
+            pass
 
     @staticmethod
     def _feed(path, data):
@@ -340,6 +368,15 @@ class FifoFeeder:
             pass
 
     def __exit__(self, *a):
+        if self.stdin is not None:
+            if self.saved0 is not None and self.saved0 >= 0:
+                os.dup2(self.saved0, 0)  # also drops the read end, so a writer still blocked sees EPIPE
+                os.close(self.saved0)
+            else:
+                devnull = os.open(os.devnull, os.O_RDONLY)
+                os.dup2(devnull, 0)
+                os.close(devnull)
+            self.stdin_thread.join(2)
         for t, path in self.threads:
             if t.is_alive():  # hr never opened it: release the writer
                 try:
@@ -967,6 +1004,8 @@ def role_of(d):
         return f"<fifo:{d['name']},prefix={d['pfx']}>"
     if k == "foreign":
         return "<foreign-objects>"
+    if k == "stdin":
+        return f"<stdin,prefix={d['pfx']}>"
     return f"<{k}>"
 
 
@@ -989,6 +1028,8 @@ def build_world(log, descs):
             paths.append(world.directory("d.zst"))
         elif k == "fifo":
             paths.append(world.fifo(d["name"], log.raw[d["pfx"]]))
+        elif k == "stdin":
+            paths.append(world.stdin_log(log, d["pfx"]))
         else:
             raise ValueError(k)
     return world, paths
@@ -1026,13 +1067,70 @@ def run_hr_case(env, ctx, write_log, calls, off, descs, probes):
 _HR_SEEN = {}
 
 
-def report_hr(ctx, bad, calls, off, descs, label):
+def shrink_hr(env, ctx, write_log, simple_calls, b, calls, off, descs):
+    """a smaller reproduction of the same way of failing, candidates in a fixed order: one input file, the standard
+    small logs, utcoffset 0, no early close of the output, option strings dropped one at a time"""
+    sig = hr_sig(b)
+    cur = {"calls": calls, "off": off, "descs": descs, "sym": list(b["sym"]), "cut": b["cut"], "b": b}
+    budget = [40]
+
+    def attempt(calls2, off2, descs2, sym2, cut2):
+        if budget[0] <= 0:
+            return False
+        budget[0] -= 1
+        try:
+            bad = run_hr_case(env, ctx, write_log, calls2, off2, descs2, [(sym2, cut2)])
+        except Exception:  # noqa: BLE001
+            return False
+        if bad and hr_sig(bad[0]) == sig:
+            cur.update(calls=calls2, off=off2, descs=descs2, sym=sym2, cut=cut2, b=bad[0])
+            return True
+        return False
+
+    files = [a for a in cur["sym"] if a.startswith("@") and a[1:].isdigit()]
+    if len(files) > 1:
+        for f in dict.fromkeys(files):
+            if attempt(cur["calls"], cur["off"], cur["descs"], [a for a in cur["sym"] if not (a.startswith("@") and a[1:].isdigit())] + [f], cur["cut"]):
+                break
+    if cur["cut"] is not None:
+        attempt(cur["calls"], cur["off"], cur["descs"], cur["sym"], None)
+    for L in (0, 1, 2, 3, 5, 8):
+        if L >= len(cur["calls"]) and len(cur["calls"]) <= 8:
+            break
+        if attempt(simple_calls([[20, 30, 10, 40, 5, 50, 25][i % 7] for i in range(L)]), cur["off"], cur["descs"], cur["sym"], cur["cut"]):
+            break
+    if cur["off"] != 0:
+        attempt(cur["calls"], 0, cur["descs"], cur["sym"], cur["cut"])
+    i = 0
+    while i < len(cur["sym"]):
+        a = cur["sym"][i]
+        if a.startswith("@"):
+            i += 1
+            continue
+        cand1 = cur["sym"][:i] + cur["sym"][i + 1:]
+        cand2 = cur["sym"][:i] + cur["sym"][i + 2:] if i + 1 < len(cur["sym"]) and not cur["sym"][i + 1].startswith("@") else None
+        if attempt(cur["calls"], cur["off"], cur["descs"], cand1, cur["cut"]) or (cand2 is not None and attempt(cur["calls"], cur["off"], cur["descs"], cand2, cur["cut"])):
+            continue
+        i += 1
+    used = sorted({int(a[1:]) for a in cur["sym"] if a.startswith("@") and a[1:].isdigit()})
+    remap = {j: k for k, j in enumerate(used)}
+    descs2 = [cur["descs"][j] for j in used]
+    sym2 = [f"@{remap[int(a[1:])]}" if a.startswith("@") and a[1:].isdigit() else a for a in cur["sym"]]
+    return cur["calls"], cur["off"], descs2, {**cur["b"], "sym": sym2}
+
+
+def report_hr(ctx, bad, calls, off, descs, label, shrinker=None):
     seen = _HR_SEEN.setdefault(id(ctx), set())
     for b in bad:
         sig = hr_sig(b)
         if sig in seen:  # one report per way of failing; the first input found stands for the class
             continue
         seen.add(sig)
+        if shrinker is not None:
+            try:
+                calls, off, descs, b = shrinker(b, calls, off, descs)
+            except Exception:  # noqa: BLE001 - report the unshrunk case
+                pass
         sh = shape(b["sym"], descs)
         key = f"hr2:{sig}:{' '.join(sh)}" + (f":cut={b['cut']}" if b["cut"] is not None else "") + f":len={b['n']}"
         ctx.disagree(key, f"hr {' '.join(sh)}" + (f" | head -{b['cut']}" if b["cut"] is not None else "") + f" on a {b['n']}-record log ({label}): {sig}",
@@ -1072,6 +1170,7 @@ def opt_forms_p(rng, p, by):
 MODE_FORMS = {"forward": [[]], "reverse": [["-r"], ["--reverse"], ["--rev"]], "head": [["--head"], ["--hea"]], "tail": [["-t"], ["--tail"], ["--ta"]]}
 SIX = [{"kind": "log", "pfx": pfx, "stored": st, "name": ("T" if pfx else "F") + {"plain": ".json", "zst": ".json.zst", "gz": ".json.gz"}[st]}
        for pfx in (1, 0) for st in ("plain", "zst", "gz")]
+SEVEN = {pfx: SIX + [{"kind": "stdin", "pfx": pfx}] for pfx in (0, 1)}  # + standard input holding the log with / without prefix
 
 
 def logrec_setup(env, log):
@@ -1094,7 +1193,7 @@ def check_written(env, ctx, log, res, base, label):
     return True
 
 
-def systematic_probes(rng, n):
+def systematic_probes(rng, n, stdin_pfx):
     probes = []
     k = 0
     for mode, forms in MODE_FORMS.items():
@@ -1108,7 +1207,7 @@ def systematic_probes(rng, n):
                             argv += opt_forms_n(rng, nv)
                         if p is not None:
                             argv += opt_forms_p(rng, p, pk)
-                        f = f"@{(0 if pfx else 3) + k % 3}"
+                        f = f"@{(0 if pfx else 3) + k % 3}" if pfx != stdin_pfx or k % 4 else "@6"
                         probes.append((argv + [f] if rng.random() < 0.7 else [f] + argv, None))
     return probes
 
@@ -1141,6 +1240,8 @@ def gen_descs(rng):
             descs.append({"kind": "foreign", "lines": lines})
         else:
             descs.append({"kind": kind})
+    if rng.random() < 0.35:
+        descs.append({"kind": "stdin", "pfx": rng.choice([0, 1])})
     return descs
 
 
@@ -1151,21 +1252,26 @@ def part_hr(env, ctx, write_log, simple_calls, gen_call, budget_s):
     rng = ctx.rng
     t0 = time.time()
     total = 0
+
+    def shrinker(b, c, o, d):
+        return shrink_hr(env, ctx, write_log, simple_calls, b, c, o, d)
+
     # 1. systematic: every mode x n in {absent, 0, 1, len-1, len, len+1} x priority absent / by name / by number x prefix, container rotating
     sizes = ctx.pick([0, 1, 3, 8], [0, 1, 2, 3, 5, 8, 13])
     for n in sizes:
         off = TZ_OFFSETS[n % len(TZ_OFFSETS)]
         calls = simple_calls([[20, 30, 10, 40, 5, 50, 25][i % 7] for i in range(n)])
-        probes = systematic_probes(rng, n)
-        bad = run_hr_case(env, ctx, write_log, calls, off, SIX, probes)
+        descs = SEVEN[n % 2]
+        probes = systematic_probes(rng, n, n % 2)
+        bad = run_hr_case(env, ctx, write_log, calls, off, descs, probes)
         total += len(probes)
         ctx.ev(len(probes))
         ctx.kind(f"hr2:systematic:len{n}")
         for argv, _ in probes:
             ctx.nontrivial(("hr2", n, tuple(argv)))
-        report_hr(ctx, bad, calls, off, SIX, "systematic")
+        report_hr(ctx, bad, calls, off, descs, "systematic", shrinker)
     ctx.exhaustive_parts.append("hr end to end: every mode x n in {absent, 0, 1, len-1, len, len+1} x priority absent / by name / by number (0, 2, 4, 6, 8) x prefix "
-                                f"present / absent on logs of {sizes} records, container rotating over plain/.zst/.gz; option spellings sampled")
+                                f"present / absent on logs of {sizes} records, container rotating over plain/.zst/.gz/standard input; option spellings sampled")
     # 2. 1..3 inputs of mixed kinds: good logs under many names, misleading names, truncated / junk / foreign content, missing, directory, fifo; output cut short
     for i in range(ctx.pick(60, 600)):
         if ctx.quick and not ctx.widened and time.time() - t0 > budget_s:
@@ -1189,7 +1295,7 @@ def part_hr(env, ctx, write_log, simple_calls, gen_call, budget_s):
             for _ in range(rng.choice([1, 1, 2, 2, 3])):
                 j = rng.randrange(len(descs))
                 if descs[j]["kind"] == "fifo" and f"@{j}" in fl:
-                    continue
+                    continue  # two readers of one fifo would race for its bytes
                 fl.append(f"@{j}")
             cut = rng.choice([None, None, None, None, 0, 1, 2, n])
             lay = rng.random()
@@ -1206,7 +1312,7 @@ def part_hr(env, ctx, write_log, simple_calls, gen_call, budget_s):
                     ctx.kind("hr2:file:" + (d["kind"] if d["kind"] != "log" else d["stored"] + ("-as-" + (Path(d["name"]).suffix or "none") if d["name"][:1] == "m" else "")))
             ctx.kind(f"hr2:files:{nf}", "hr2:cut" if cut is not None else "hr2:nocut")
             ctx.nontrivial(("hr2m", i, tuple(argv), cut))
-        report_hr(ctx, bad, calls, off, descs, "mixed inputs")
+        report_hr(ctx, bad, calls, off, descs, "mixed inputs", shrinker)
     ctx.traces_validated += total
 
 
@@ -1223,7 +1329,8 @@ def argv_follow_up(env, ctx, write_log, simple_calls):
             return False
         probes = [(sym, None)] + [([m] + sym, None) for m in ("-t", "--head", "-r")]
         bad = run_hr_case(env, ctx, write_log, calls, 3600, descs, probes)[:1]
-        report_hr(ctx, bad, calls, 3600, descs, "argument vector on which argparse and the model differ")
+        report_hr(ctx, bad, calls, 3600, descs, "argument vector on which argparse and the model differ",
+                  lambda b, c, o, d: shrink_hr(env, ctx, write_log, simple_calls, b, c, o, d))
         return bool(bad)
 
     return follow
